@@ -1,0 +1,44 @@
+//go:build verif
+
+// Contracts for the reference Merkle tree (C19), read by the verifier in /verif (govc).  Comments only.
+//
+// What is decided here, level by level: the leaves of the tree carry the given hashes in the given order; every inner
+// node of the next level is the hash of exactly the 64 bytes "left child's hash, right child's hash", the children being
+// the nodes 2k and 2k+1 of the level below (the last node stands in for a missing right sibling); the next level is
+// built from exactly these nodes, in order; a one-node level is its own root.  That the root therefore changes with any
+// leaf or order change (for lists of equal length) is the usual induction over the levels with a collision-resistant
+// hash: argued, not mechanised; the strength of the hash function is assumed (A-HASH).
+
+package merkle
+
+//@ runtags [C19]
+//@ opaque crypto.Uint256
+//@ option freshalloc
+
+// the hash function is a function of the bytes it is given
+//@ extern crypto.Hash256
+//@   pure
+
+//@ func NewMerkleTree
+//@   loops 2
+// the depth counter counts the levels of the tree (at most 64 for any list that fits in memory); that bound is not proved
+//@   wraps *
+//@   loop 1: invariant 0 <= idx && idx <= len(nodes) && forall(k, 0, len(nodes), nodes[k] != nil) && forall(k, 0, idx, nodes[k].Hash == hashes[k])
+//@   loop 2: invariant node != nil
+//@   at call buildTree: assert [C19] @leavesAreTheHashes len(arg0) == len(hashes) && forall(k, 0, len(hashes), arg0[k] != nil && arg0[k].Hash == hashes[k])
+//@   ensures [C19] @rootExists implies(len(hashes) > 0, result != nil && result.root != nil)
+//@   ensures [C19] @emptyIsNil implies(len(hashes) == 0, result == nil)
+//@ func (*Tree).Root
+//@   loops 0
+//@   modifies nothing
+//@   ensures [C19] @isRoot result == m.root
+//@ func buildTree
+//@   loops 1
+//@   requires len(leaves) >= 1 && forall(k, 0, len(leaves), leaves[k] != nil)
+//@   loop 1: invariant 0 <= idx && idx <= len(parents) && len(parents) == (len(leaves) + 1) / 2 && forall(k, 0, len(parents), parents[k] != nil)
+//@   loop 1: invariant forall(k, 0, idx, parents[k].Left == leaves[2*k] && implies(2*k+1 < len(leaves), parents[k].Right == leaves[2*k+1]) && implies(2*k+1 == len(leaves), parents[k].Right == leaves[2*k]))
+//@   at call *.Hash256: assert [C19] @pairHashed len(arg0) == 64 && forall(k, 0, 32, arg0[k] == bytesof(leaves[2*idx].Hash)[k])
+//@   at call *.Hash256: assert [C19] @pairHashedRight implies(2*idx+1 < len(leaves), forall(k, 0, 32, arg0[32+k] == bytesof(leaves[2*idx+1].Hash)[k])) && implies(2*idx+1 == len(leaves), forall(k, 0, 32, arg0[32+k] == bytesof(leaves[2*idx].Hash)[k]))
+//@   at call buildTree: assert [C19] @nextLevel len(arg0) == (len(leaves) + 1) / 2 && forall(k, 0, len(arg0), arg0[k].Left == leaves[2*k] && implies(2*k+1 < len(leaves), arg0[k].Right == leaves[2*k+1]) && implies(2*k+1 == len(leaves), arg0[k].Right == leaves[2*k]))
+//@   ensures [C19] @nonNil result != nil
+//@   ensures [C19] @singleIsRoot implies(len(leaves) == 1, result == leaves[0])
